@@ -60,6 +60,12 @@ func refDCT(x []float64, kmax int, out []float64) {
 // luminance buffer, flattened as [b*v + u] with v the vertical and u the horizontal frequency
 // (row-major frequency order).
 func refDCT2DLow(lum []float64, s, b int) []float64 {
+	out, _ := refDCT2DLowRows(lum, s, b)
+	return out
+}
+
+// refDCT2DLowRows also returns the row-pass result rows[y*b+u].
+func refDCT2DLowRows(lum []float64, s, b int) ([]float64, []float64) {
 	rows := make([]float64, s*b) // rows[y*b+u]
 	tmp := make([]float64, b)
 	for y := 0; y < s; y++ {
@@ -77,7 +83,7 @@ func refDCT2DLow(lum []float64, s, b int) []float64 {
 			out[b*v+u] = tmp[v]
 		}
 	}
-	return out
+	return out, rows
 }
 
 func l1(x []float64) float64 {
